@@ -90,6 +90,13 @@ Proof.
 Qed.
 End NoSnapshots.
 
+Lemma replay_snap0 c : c_I c = 0 -> forall k s sched, m_snapshot (fst (replay c k s sched)) = m_snapshot s.
+Proof.
+  intros HI0. induction k as [|k IH]; intros s sched; [reflexivity|]. cbn [replay].
+  pose proof (next_data_snap c HI0 (FUEL c s) s sched) as Hn. unfold sdl_next.
+  destruct (next_data (FUEL c s) c s sched) as [[o s'] sched']. cbn [fst snd] in Hn. rewrite IH. exact Hn.
+Qed.
+
 Lemma iter_put_snap c : forall n s, m_snapshot (iter_n (try_put_index c) n s) = m_snapshot s.
 Proof. induction n as [|n IH]; intros s; [reflexivity|]. cbn [iter_n]. rewrite IH. apply try_put_snap. Qed.
 
@@ -127,7 +134,7 @@ Lemma resume_state : forall sched, sd_steps d <= length (refsuf W B 0 cyc0) ->
   exists sr sched' gw rd a R, sdl_resume c d sched = (sr, sched') /\
     InvC c B cyc0 gw rd a R sr /\ Rest c B gw rd R sr (skipn (sd_steps d) (refsuf W B 0 cyc0)) /\ Act c gw rd a sr /\
     InvS c B (m_ny sr) gw rd sr /\ InvW c cyc0 wk0 gw rd a sr /\ InvX c B cyc0 wk0 gw rd sr /\
-    m_ny sr = sn_step sn + sd_steps d /\ (sd_steps d = 0 -> m_snapshot sr = sn).
+    m_ny sr = sn_step sn + sd_steps d /\ (sd_steps d = 0 \/ c_I c = 0 -> m_snapshot sr = sn).
 Proof.
   intros sched Hsteps. unfold sdl_resume. rewrite Hkind, Hst. cbn [negb].
   fold sn. fold cyc0.
@@ -153,7 +160,9 @@ Proof.
   split; [apply (InvW_ext c cyc0 wk0 gw' rd' a' s4 sF HW4); [unfold agreeW; repeat split; reflexivity | intros; reflexivity]|].
   split; [apply (InvX_ext c B cyc0 wk0 gw' rd' s4 sF HX4); [unfold agreeX; repeat split; reflexivity | intros; reflexivity]|].
   split; [change (m_ny sF) with (m_ny s4); rewrite Eny4, Eny; reflexivity|].
-  intros E0. rewrite E0 in E. cbn [replay] in E. injection E as <- _. exact Esn3.
+  intros [E0|HI0].
+  - rewrite E0 in E. cbn [replay] in E. injection E as <- _. exact Esn3.
+  - pose proof (replay_snap0 c HI0 (sd_steps d) s3 sched) as Hr. rewrite E in Hr. cbn [fst] in Hr. change (m_snapshot sF) with (m_snapshot s4). rewrite Hr. exact Esn3.
 Qed.
 
 Theorem resume_main_exact : forall sched, sd_steps d <= length (refsuf W B 0 cyc0) ->
@@ -445,7 +454,7 @@ Proof.
   pose proof (resume_state c Hkind HW HP Hst B1 d) as T. change (sd_snapshot d) with (m_snapshot s) in T. rewrite Ela in T.
   specialize (T Hwok Ha1 sched ltac:(rewrite Est0; lia)).
   destruct T as (sr & sched' & gw1 & rd1 & a1 & R1' & E & H1 & HR1 & HA1 & HS1 & HW1 & HX1 & Eny1 & Esn1).
-  exists sr, sched'. split; [exact E|]. rewrite Est0 in *. cbn [skipn] in HR1. specialize (Esn1 eq_refl).
+  exists sr, sched'. split; [exact E|]. rewrite Est0 in *. cbn [skipn] in HR1. specialize (Esn1 (or_introl eq_refl)).
   assert (refsuf W B1 0 c1 = rest) as Ecan by (unfold B1; rewrite (refsuf_canon W B HW R1 c1 Hc1); exact Eref).
   rewrite Ecan in HR1.
   exists B1, c1, wk1, gw1, rd1, a1, R1'. split; [exact Hc1|]. split; [exact Ha1|].
@@ -520,3 +529,132 @@ Proof.
 Qed.
 
 End EveryStep.
+
+(* ------------------------------------------------------------------ *)
+(* snapshot_every_n_steps = 0: chains of checkpoint/resume, for iterable datasets WITH their own state (restore path: the initial
+   entries) and WITHOUT (fast-forward path: fresh workers, the steps replayed) *)
+Section NoSnapshotsChain.
+Variable c : cfg.
+Hypothesis Hkind : c_kind c = KIter.
+Hypothesis HW : 0 < c_W c.
+Hypothesis HP : 0 < c_P c.
+Hypothesis HI0 : c_I c = 0.
+Notation W := (c_W c).
+
+Definition Good0 (k : nat) (s : ms) : Prop :=
+  exists B cyc0 wk0 gw rd a R, cyc0 < W /\
+    InvC c B cyc0 gw rd a R s /\ Rest c B gw rd R s (skipn k (reference c)) /\ Act c gw rd a s /\ InvS c B (m_ny s) gw rd s /\
+    InvW c cyc0 wk0 gw rd a s /\ InvX c B cyc0 wk0 gw rd s /\ m_ny s = k /\ m_snapshot s = snap0 c /\ k <= length (reference c).
+
+Lemma fresh_good0 : Good0 0 (sdl_fresh c).
+Proof.
+  destruct (fresh_start c Hkind HW HP) as (gw & rd & R & H & HR & HA & HS & Eny & HWw & HX).
+  exists (Bw c), 0, wk_fresh0, gw, rd, (a0 0), R. split; [exact HW|]. split; [exact H|]. split; [exact HR|]. split; [exact HA|]. split; [exact HS|].
+  split; [exact HWw|]. split; [exact HX|]. split; [exact Eny|]. split; [unfold sdl_fresh; rewrite iter_put_snap; reflexivity | lia].
+Qed.
+
+Lemma replay_good0 : forall j k s sched, Good0 k s -> k + j <= length (reference c) ->
+  exists s' sched', replay c j s sched = (s', sched') /\ Good0 (k + j) s'.
+Proof.
+  intros j k s sched (B & cyc0 & wk0 & gw & rd & a & R & Hc0 & H & HR & HA & HS & HWw & HX & Eny & Esn & Hk) Hkj.
+  destruct (replay_iter c Hkind HW HP B cyc0 Hc0 wk0 j gw rd a R s (skipn k (reference c)) sched ltac:(rewrite skipn_length; lia) H HR HA HS HWw HX)
+    as (s' & sched' & gw' & rd' & a' & R' & E & H' & HR' & HA' & HS' & Eny' & HW' & HX' & _).
+  exists s', sched'. split; [exact E|]. rewrite skipn_skipn in HR'.
+  exists B, cyc0, wk0, gw', rd', a', R'. split; [exact Hc0|]. split; [exact H'|]. split; [exact HR'|]. split; [exact HA'|]. split; [exact HS'|].
+  split; [exact HW'|]. split; [exact HX'|]. split; [lia|]. split; [|lia].
+  pose proof (replay_snap0 c HI0 j s sched) as Hr. rewrite E in Hr. cbn [fst] in Hr. rewrite Hr. exact Esn.
+Qed.
+
+Lemma map_restored_snap0 : map (fun sv : wsave => wk_restored (fst sv, snd sv)) (sn_workers (snap0 c)) = repeat wk_fresh W.
+Proof. cbn [sn_workers snap0]. generalize W. intros n. induction n as [|n IH]; [reflexivity|]. cbn [repeat map]. rewrite IH. reflexivity. Qed.
+
+(* checkpoint + resume, restore path *)
+Lemma resume_good0_st k s sched : c_stateful c = true -> Good0 k s ->
+  exists sr sched', sdl_resume c (state_dict s) sched = (sr, sched') /\ Good0 k sr.
+Proof.
+  intros Hst (B & cyc0 & wk0 & gw & rd & a & R & Hc0 & H & HR & HA & HS & HWw & HX & Eny & Esn & Hk).
+  assert (state_dict s = {| sd_snapshot := snap0 c; sd_steps := k; sd_finished := m_finished s |}) as ->.
+  { unfold state_dict. rewrite Esn, Eny. cbn [sn_step snap0]. rewrite Nat.sub_0_r. reflexivity. }
+  set (d := {| sd_snapshot := snap0 c; sd_steps := k; sd_finished := m_finished s |}).
+  assert (S (sn_last (sd_snapshot d)) mod W = 0) as E0.
+  { cbn. replace (S (W - 1)) with W by lia. apply Nat.mod_same. lia. }
+  pose proof (resume_state c Hkind HW HP Hst (Bw c) d) as T. rewrite E0 in T.
+  change (sn_workers (sd_snapshot d)) with (sn_workers (snap0 c)) in T. rewrite map_restored_snap0 in T.
+  specialize (T (fresh_workers_ok c Hkind) ltac:(intros w _; cbn; lia) sched).
+  rewrite (refsuf_start c Hkind HW) in T. specialize (T Hk).
+  destruct T as (sr & sched' & gw1 & rd1 & a1 & R1 & E & H1 & HR1 & HA1 & HS1 & HW1 & HX1 & Eny1 & Esn1).
+  exists sr, sched'. split; [exact E|].
+  eexists (Bw c), 0, _, gw1, rd1, a1, R1. split; [exact HW|]. split; [exact H1|]. split; [exact HR1|]. split; [exact HA1|]. split; [exact HS1|].
+  split; [exact HW1|]. split; [exact HX1|]. split; [exact Eny1|]. split; [exact (Esn1 (or_intror HI0)) | exact Hk].
+Qed.
+
+(* checkpoint + resume, fast-forward path (the dataset has no state of its own): fresh workers, the steps replayed *)
+Lemma resume_good0_ff k s sched : c_stateful c = false -> Good0 k s ->
+  exists sr sched', sdl_resume c (state_dict s) sched = (sr, sched') /\ Good0 k sr.
+Proof.
+  intros Hnst (B & cyc0 & wk0 & gw & rd & a & R & Hc0 & H & HR & HA & HS & HWw & HX & Eny & Esn & Hk).
+  assert (state_dict s = {| sd_snapshot := snap0 c; sd_steps := k; sd_finished := m_finished s |}) as ->.
+  { unfold state_dict. rewrite Esn, Eny. cbn [sn_step snap0]. rewrite Nat.sub_0_r. reflexivity. }
+  unfold sdl_resume. rewrite Hkind, Hnst. cbn [negb sd_snapshot sd_steps sd_finished].
+  match goal with |- context [iter_n (try_put_index c) (c_P c * W) ?S] =>
+    assert (S = init0 c 0 (repeat wk_fresh W) 0 0 0 (W - 1) (repeat (0, false) W) (snap0 c)) as -> by reflexivity end.
+  destruct (start_iter c Hkind HW HP (Bw c) 0 HW ltac:(intros w _; cbn; lia) wk_fresh0 (repeat wk_fresh W) 0 0 0 (W - 1)
+              (repeat (0, false) W) (snap0 c) (fresh_workers_ok c Hkind) (fresh_entries_ok c (snap0 c) eq_refl)) as (gw2 & rd2 & R2 & H2 & HR2 & HA2 & HS2 & Eny2 & HW2 & HX2).
+  cbn zeta in H2, HR2, HA2, HS2, Eny2, HW2, HX2. rewrite (refsuf_start c Hkind HW) in HR2.
+  set (s2 := iter_n (try_put_index c) (c_P c * W) _) in *.
+  assert (m_snapshot s2 = snap0 c) as Esn2 by (unfold s2; rewrite iter_put_snap; reflexivity).
+  rewrite Eny2. cbn [replay Nat.ltb Nat.leb andb].
+  match goal with |- context [replay c k ?S sched] => set (s2' := S) end.
+  assert (agree s2 s2') as Hag by (unfold agree, s2'; cbn; repeat split; reflexivity).
+  assert (agreeS s2 s2') as HagS by (split; [exact Hag | split; [cbn; symmetry; exact Eny2 | reflexivity]]).
+  assert (m_info s2' = m_info s2) as Hinf by reflexivity.
+  assert (InvC c (Bw c) 0 gw2 rd2 (a0 0) R2 s2') as H2' by (apply (InvC_ext c (Bw c) 0 gw2 rd2 (a0 0) R2 s2 s2' H2 Hag); [rewrite Hinf; exact (c_wf _ _ _ _ _ _ _ _ H2) | intros; rewrite Hinf; reflexivity | rewrite Hinf; reflexivity]).
+  pose proof (Rest_agree c (Bw c) gw2 rd2 R2 s2 s2' _ HR2 Hag) as HR2'.
+  pose proof (Act_agree c gw2 rd2 (a0 0) s2 s2' HA2 Hag) as HA2'.
+  assert (InvS c (Bw c) (m_ny s2') gw2 rd2 s2') as HS2'.
+  { change (m_ny s2') with 0. rewrite <- Eny2. exact (InvS_ext c (Bw c) (m_ny s2) gw2 rd2 s2 s2' HS2 HagS ltac:(rewrite Hinf; reflexivity)). }
+  assert (InvW c 0 wk_fresh0 gw2 rd2 (a0 0) s2') as HW2' by (apply (InvW_ext c 0 wk_fresh0 gw2 rd2 (a0 0) s2 s2' HW2); [unfold agreeW; repeat split; reflexivity | intros; reflexivity]).
+  assert (InvX c (Bw c) 0 wk_fresh0 gw2 rd2 s2') as HX2' by (apply (InvX_ext c (Bw c) 0 wk_fresh0 gw2 rd2 s2 s2' HX2); [unfold agreeX; repeat split; reflexivity | intros; reflexivity]).
+  destruct (replay_iter c Hkind HW HP (Bw c) 0 HW wk_fresh0 k gw2 rd2 (a0 0) R2 s2' (reference c) sched Hk H2' HR2' HA2' HS2' HW2' HX2')
+    as (s4 & sched4 & gw' & rd' & a' & R' & E & H4 & HR4 & HA4 & HS4 & Eny4 & HW4 & HX4 & _).
+  rewrite E.
+  match goal with |- exists sr sched', (?S, ?SC) = _ /\ _ => set (sF := S) end.
+  assert (agree s4 sF) as Hag4 by (unfold agree, sF; cbn; repeat split; reflexivity).
+  assert (agreeS s4 sF) as HagS4 by (split; [exact Hag4 | split; reflexivity]).
+  exists sF, sched4. split; [reflexivity|].
+  exists (Bw c), 0, wk_fresh0, gw', rd', a', R'. split; [exact HW|].
+  split; [apply (InvC_ext c (Bw c) 0 gw' rd' a' R' s4 sF H4 Hag4); [exact (c_wf _ _ _ _ _ _ _ _ H4) | intros; reflexivity | reflexivity]|].
+  split; [exact (Rest_agree c (Bw c) gw' rd' R' s4 sF _ HR4 Hag4)|]. split; [exact (Act_agree c gw' rd' a' s4 sF HA4 Hag4)|].
+  split; [exact (InvS_ext c (Bw c) (m_ny s4) gw' rd' s4 sF HS4 HagS4 eq_refl)|].
+  split; [apply (InvW_ext c 0 wk_fresh0 gw' rd' a' s4 sF HW4); [unfold agreeW; repeat split; reflexivity | intros; reflexivity]|].
+  split; [apply (InvX_ext c (Bw c) 0 wk_fresh0 gw' rd' s4 sF HX4); [unfold agreeX; repeat split; reflexivity | intros; reflexivity]|].
+  split; [change (m_ny sF) with (m_ny s4); rewrite Eny4; reflexivity|]. split; [|exact Hk].
+  pose proof (replay_snap0 c HI0 k s2' sched) as Hr. rewrite E in Hr. cbn [fst] in Hr. change (m_snapshot sF) with (m_snapshot s4). rewrite Hr. exact Esn2.
+Qed.
+
+Lemma resume_good0 k s sched : Good0 k s -> exists sr sched', sdl_resume c (state_dict s) sched = (sr, sched') /\ Good0 k sr.
+Proof. intros G. destruct (c_stateful c) eqn:E; [apply resume_good0_st | apply resume_good0_ff]; assumption. Qed.
+
+Lemma chain_good0 : forall ks k s sched, Good0 k s -> k + fold_right Nat.add 0 ks <= length (reference c) ->
+  exists s' sched', chain c ks s sched = (s', sched') /\ Good0 (k + fold_right Nat.add 0 ks) s'.
+Proof.
+  induction ks as [|j ks IH]; intros k s sched G Hk; [exists s, sched; rewrite Nat.add_0_r; auto|].
+  cbn [fold_right] in Hk. destruct (replay_good0 j k s sched G ltac:(lia)) as (s1 & sc1 & E1 & G1).
+  destruct (resume_good0 (k + j) s1 sc1 G1) as (s2 & sc2 & E2 & G2).
+  destruct (IH (k + j) s2 sc2 G2 ltac:(lia)) as (s' & sched' & E' & G').
+  exists s', sched'. cbn [chain fold_right]. rewrite E1, E2. split; [exact E'|]. replace (k + (j + fold_right Nat.add 0 ks)) with (k + j + fold_right Nat.add 0 ks) by lia. exact G'.
+Qed.
+
+(* C01, iterable datasets, snapshot_every_n_steps = 0, WITH or WITHOUT a state of their own: any finite chain of checkpoint/resume,
+   every arrival schedule throughout, yields exactly the remaining stream *)
+Theorem iter_resume_chain_I0 : forall ks sched, fold_right Nat.add 0 ks <= length (reference c) ->
+  let '(s, sched') := chain c ks (sdl_fresh c) sched in
+  let p := fold_right Nat.add 0 ks in
+  outcomes c (S (length (reference c) - p)) s sched' = map OBatch (skipn p (reference c)) ++ [OStop].
+Proof.
+  intros ks sched Hk. destruct (chain_good0 ks 0 (sdl_fresh c) sched fresh_good0 Hk) as (s' & sched' & E & G). rewrite E. cbn zeta. cbn [Nat.add] in G.
+  destruct G as (B & cyc0 & wk0 & gw & rd & a & R & Hc0 & H & HR & HA & HS & HWw & HX & _).
+  pose proof (outcomes_iter c Hkind HW HP B cyc0 Hc0 wk0 _ gw rd a R s' sched' H HR HA HS HWw HX) as Ho. rewrite skipn_length in Ho. exact Ho.
+Qed.
+
+End NoSnapshotsChain.
